@@ -388,7 +388,7 @@ Definition codec (s : str) : option str := ue_decode (rue_encode s).
 (* ------------------------------------------------------------------ *)
 (* constructors *)
 
-(* _lang_tag_regex = ^[a-zA-Z]+(?:-[a-zA-Z0-9]+)*$   ($ also matches before one final newline) *)
+(* _lang_tag_regex = ^[a-zA-Z]+(?:-[a-zA-Z0-9]+)*\Z *)
 Definition is_alpha (c : N) : bool := ((65 <=? c) && (c <=? 90)) || ((97 <=? c) && (c <=? 122)).
 Definition is_alnum (c : N) : bool := is_alpha c || is_digit c.
 (* st: 0 = at the start of the first subtag, 1 = inside the first subtag,
@@ -397,8 +397,7 @@ Fixpoint lang_scan (st : N) (s : str) : bool :=
   match s with
   | [] => N.eqb st 1 || N.eqb st 3
   | c :: r =>
-      if N.eqb c 10 then (match r with [] => N.eqb st 1 || N.eqb st 3 | _ => false end)
-      else if N.eqb c 45 then (N.eqb st 1 || N.eqb st 3) && lang_scan 2 r
+      if N.eqb c 45 then (N.eqb st 1 || N.eqb st 3) && lang_scan 2 r
       else if N.eqb st 0 || N.eqb st 1 then is_alpha c && lang_scan 1 r
       else is_alnum c && lang_scan 3 r
   end.
